@@ -66,6 +66,10 @@ pub fn byzantine_assignment<F: Field>(c: &Circuit<F>, publics: &[F], privates: &
             w[id.0 as usize] = Some(v);
         }
     };
+    // sweep the list until nothing new can be derived (a slot may only become derivable from an
+    // op further down, e.g. an operand pinned backwards by a later op)
+    for _sweep in 0..8 {
+    let known_before = w.iter().filter(|x| x.is_some()).count();
     for op in &c.ops {
         match op {
             Op::Const { out, val } => setif(&mut w, *out, *val),
@@ -116,7 +120,9 @@ pub fn byzantine_assignment<F: Field>(c: &Circuit<F>, publics: &[F], privates: &
                 // honest hint values where the slots are still free
                 let mut tmp = w.clone();
                 for o in outputs {
-                    tmp[o.0 as usize] = None;
+                    if !inputs.contains(o) {
+                        tmp[o.0 as usize] = None;
+                    }
                 }
                 if executor.execute(inputs, outputs, &mut tmp).is_ok() {
                     for o in outputs {
@@ -129,7 +135,52 @@ pub fn byzantine_assignment<F: Field>(c: &Circuit<F>, publics: &[F], privates: &
             Op::NonPrimitiveOpWithExecutor { .. } => {}
         }
     }
+    if w.iter().filter(|x| x.is_some()).count() == known_before {
+        break;
+    }
+    }
     w.into_iter().map(|x| x.unwrap_or(F::ZERO)).collect()
+}
+
+/// Slots that occur in the operation list only as the `intermediate_out` of fused `MulAdd` rows
+/// (never as an operand or output of any op, a hint slot or an input row): no table constrains
+/// them and nothing reads them, so their value is not observable.
+pub fn pure_intermediate_slots<F: Field>(c: &Circuit<F>) -> std::collections::BTreeSet<u32> {
+    let mut inter = std::collections::BTreeSet::new();
+    let mut used = std::collections::BTreeSet::new();
+    for wid in c.public_rows.iter().chain(c.private_input_rows.iter()) {
+        used.insert(wid.0);
+    }
+    for op in &c.ops {
+        match op {
+            Op::Const { out, .. } | Op::Public { out, .. } => {
+                used.insert(out.0);
+            }
+            Op::Alu { kind, a, b, c: cc, out, intermediate_out } => {
+                used.extend([a.0, b.0, out.0]);
+                if let Some(x) = cc {
+                    used.insert(x.0);
+                }
+                if let Some(io) = intermediate_out {
+                    if *kind == AluOpKind::MulAdd {
+                        inter.insert(io.0);
+                    } else {
+                        used.insert(io.0);
+                    }
+                }
+            }
+            Op::Hint { inputs, outputs, .. } => {
+                used.extend(inputs.iter().map(|x| x.0));
+                used.extend(outputs.iter().map(|x| x.0));
+            }
+            Op::NonPrimitiveOpWithExecutor { inputs, outputs, .. } => {
+                used.extend(inputs.iter().flatten().map(|x| x.0));
+                used.extend(outputs.iter().flatten().map(|x| x.0));
+            }
+        }
+    }
+    inter.retain(|x| !used.contains(x));
+    inter
 }
 
 /// Build the logical `Traces` a prover would hand to `prove_all_tables` from an assignment
